@@ -37,7 +37,9 @@ CLAIMS = {
             "pointers are preceded by a size test, divisions by sh_entsize are guarded and no assertion depends on "
             "file contents (the 15 sites found were repaired one by one); reads are bounded per pointer by the size of "
             "the very section they point into (provenance); R-ELFALLOC: no allocation is sized from an unvalidated "
-            "section-header count",
+            "section-header count; R-LOOPPROG (termination): no loop reachable from the readers relies for its progress on a "
+            "callee that may decline to write its out-parameter while the result of the call is discarded (one site "
+            "found - abidw hung on a `../` .gnu_debugaltlink - and repaired)",
             "elfutils' own memory safety; the DWARF part of the reader; ppc64-only paths are listed as undecided",
             "§3 R-ELFNULL, R-ELFBOUND, R-INASSERT; §4 C34"),
     "C14": ("type-directed loop classification (address-dependent containers from canonical template arguments) and "
